@@ -124,7 +124,7 @@ func Minimize(rp *Replay, pr *Profile, st *Stats, target Deviation, budget time.
 		return true
 	})
 	try(func(c *Config, s []Op) bool {
-		if len(c.Feeds) == 0 {
+		if len(c.Feeds) == 0 || (pr != nil && pr.KeepFeeds) {
 			return false
 		}
 		c.Feeds = nil
